@@ -46,6 +46,8 @@ RULE = (
     "coefficients, derivative orders 0..3 per axis, use_log, method cubic|linear, 1..4 query points anywhere in the box; "
     "non-trivial = a polynomial with all 64 (8 for linear) coefficients non-zero. distinct = distinct descriptor"
 )
+RULE = RULE + " " + 'cube_roundtrip also reads the angstrom file grid-only; interpolate: a decoy call on the same grid precedes the checked call.'
+
 ASSUMPTIONS = [
     "the box volume V of a uniform grid is |det(axes)| * prod(shape) (the convention under which the Rectangle rule sums to V)",
     "margin of from_molecule is measured along the grid's own axes between a nucleus and the outermost grid planes",
